@@ -377,7 +377,14 @@ pid_t Subprocess::pid() const {
 
 string Subprocess::communicate(
     const void* stdin_data, size_t stdin_size, uint64_t timeout_usecs) {
-  uint64_t deadline_usecs = timeout_usecs ? (now() + timeout_usecs) : 0;
+  uint64_t deadline_usecs = 0;
+  if (timeout_usecs) {
+    // A timeout too large to be added to the current time means no deadline
+    uint64_t start_usecs = now();
+    if (timeout_usecs <= UINT64_MAX - start_usecs) {
+      deadline_usecs = start_usecs + timeout_usecs;
+    }
+  }
   Poll p;
   if (stdin_size == 0) {
     close(this->stdin_write_fd);
